@@ -69,17 +69,22 @@ def gen_graph():
         _die("sort_types: key is not TABLE.get(x, <non-negative int>)")
     default = lam.args[1].value
 
-    # Attr.native_types must still be list(set(...))
+    # Attr.native_types: list(dict.fromkeys(...)) (order preserving, since /repo 4392a4a) or the old list(set(...))
     models = Src("xsdata/codegen/models.py")
     nt = models.func("native_types", "Attr")
     rets = [n for n in ast.walk(nt) if isinstance(n, ast.Return)]
     shape = "other"
     if len(rets) == 1 and isinstance(rets[0].value, ast.Call):
         c = rets[0].value
-        if _name(c.func) == "list" and len(c.args) == 1 and isinstance(c.args[0], ast.Call) and _name(c.args[0].func) == "set":
-            shape = "list_set"
-        elif _name(c.func) == "sorted":
-            shape = "sorted"
+        if _name(c.func) == "list" and len(c.args) == 1 and isinstance(c.args[0], ast.Call):
+            inner = c.args[0]
+            if isinstance(inner.func, ast.Name) and inner.func.id == "set":
+                shape = "list_set"
+            elif (isinstance(inner.func, ast.Attribute) and inner.func.attr == "fromkeys" and isinstance(inner.func.value, ast.Name)
+                  and inner.func.value.id == "dict" and len(inner.args) == 1):
+                shape = "dict_fromkeys"
+    if shape == "other":
+        _die("Attr.native_types: neither list(set(...)) nor list(dict.fromkeys(...))")
     # DataType members: python types
     enums = Src("xsdata/models/enums.py")
     found = [n for n in enums.tree.body if isinstance(n, ast.ClassDef) and n.name == "DataType"]
@@ -101,6 +106,7 @@ def gen_graph():
     out += f"Definition sort_types_shortcut : nat := {shortcut}%nat.\n"
     out += "Definition datatype_python_types : list (list N) := " + clist(pytypes, cstr) + ".\n"
     out += f"Definition native_types_is_list_of_set : bool := {'true' if shape == 'list_set' else 'false'}.\n"
+    out += f"Definition native_types_is_order_preserving : bool := {'true' if shape == 'dict_fromkeys' else 'false'}.\n"
     return out
 
 
